@@ -100,4 +100,122 @@ theorem gate_sound (f : TransFns Rat) {σ : Type} (view : σ → GateCtx Rat × 
         · exact ih _ h
       · cases h
 
+/-! ### 3. linear algebra of token lists -/
+
+theorem evalBody_append (f : TransFns Rat) (v : String → Rat) (a b : List (String × Rat)) :
+    letI := ratOps f; evalBody v (a ++ b) = evalBody v a + evalBody v b :=
+  Speciation.evalBody_append f v a b
+
+theorem evalBody_scaleBody (f : TransFns Rat) (v : String → Rat) (c : Rat) (b : List (String × Rat)) :
+    letI := ratOps f; evalBody v (scaleBody c b) = c * evalBody v b :=
+  Speciation.evalBody_scaleBody f v c b
+
+theorem evalBody_removeName (f : TransFns Rat) (v : String → Rat) (n : String) (b : List (String × Rat)) :
+    letI := ratOps f; evalBody v (removeName n b) + coefOf n b * v n = evalBody v b :=
+  Speciation.evalBody_removeName f v n b
+
+theorem evalBody_addTerm (f : TransFns Rat) (v : String → Rat) (n : String) (c : Rat) (b : List (String × Rat)) :
+    letI := ratOps f; evalBody v (addTerm n c b) = evalBody v b + c * v n :=
+  Speciation.evalBody_addTerm f v n c b
+
+theorem evalBody_mergeInto (f : TransFns Rat) (v : String → Rat) (acc b : List (String × Rat)) :
+    letI := ratOps f; evalBody v (mergeInto acc b) = evalBody v acc + evalBody v b :=
+  Speciation.evalBody_mergeInto f v acc b
+
+/-- `trxn_combine` does not change the value of the linear form, provided `drop` only removes exact zeros -/
+theorem evalBody_normalise (f : TransFns Rat) (v : String → Rat) (drop : Rat → Bool)
+    (hdrop : ∀ c, drop c = true → c = 0) (b : List (String × Rat)) :
+    letI := ratOps f; evalBody v (normalise drop b) = evalBody v b :=
+  Speciation.evalBody_normalise f v drop hdrop b
+
+/-- eliminating species `n` through its defining equation `d` adds `coef(n)` times the residual of `d` -/
+theorem residual_substOne (f : TransFns Rat) (la : String → Rat) (K : LogK Rat → Rat)
+    (hK : letI := ratOps f; ∀ (p q : LogK Rat) (c : Rat), K (p.addScaled c q) = K p + c * K q)
+    (n : String) (d e : Eqn Rat) (hd : d.head = n) :
+    letI := ratOps f
+    residual la K (substOne n d e) = residual la K e + coefOf n e.body * residual la K d :=
+  Speciation.residual_substOne f la K hK n d e hd
+
+/-- `rewrite_master_to_secondary`: the pivoted equation is `pm − (c1/c2)·pm0` -/
+theorem residual_pivot (f : TransFns Rat) (la : String → Rat) (K : LogK Rat → Rat)
+    (hK : letI := ratOps f; ∀ (p q : LogK Rat) (c : Rat), K (p.addScaled c q) = K p + c * K q)
+    (p : String) (pm pm0 : Eqn Rat) :
+    letI := ratOps f
+    (pivot p pm pm0).head = pm.head ∧
+    residual la K (pivot p pm pm0)
+      = residual la K pm - (coefOf p pm.body / coefOf p pm0.body) * residual la K pm0 :=
+  Speciation.residual_pivot f la K hK p pm pm0
+
+/-! ### 4. rewriting to the masters in use preserves mass action -/
+
+/-- main statement: for every fuel, every list, every `K` that is linear for `addScaled` (e.g. `kCalc · T P`,
+`kCalc_addScaled`): the rewritten equation has the same head and the same residual -/
+theorem rewrite_residual_eq (f : TransFns Rat) (drop : Rat → Bool) (inUse : String → Bool)
+    (defs : String → Option (Eqn Rat)) (la : String → Rat) (K : LogK Rat → Rat)
+    (hK : letI := ratOps f; ∀ (p q : LogK Rat) (c : Rat), K (p.addScaled c q) = K p + c * K q)
+    (hdrop : ∀ c, drop c = true → c = 0)
+    (hdefs : letI := ratOps f; ∀ n d, defs n = some d → d.head = n ∧ residual la K d = 0)
+    (fuel : Nat) (e e' : Eqn Rat) :
+    letI := ratOps f
+    rewriteToMasters drop inUse defs fuel e = some e' →
+      e'.head = e.head ∧ residual la K e' = residual la K e :=
+  Speciation.rewrite_residual f drop inUse defs la K hK hdrop hdefs fuel e e'
+
+theorem rewrite_mass_action_iff (f : TransFns Rat) (drop : Rat → Bool) (inUse : String → Bool)
+    (defs : String → Option (Eqn Rat)) (la : String → Rat) (K : LogK Rat → Rat)
+    (hK : letI := ratOps f; ∀ (p q : LogK Rat) (c : Rat), K (p.addScaled c q) = K p + c * K q)
+    (hdrop : ∀ c, drop c = true → c = 0)
+    (hdefs : letI := ratOps f; ∀ n d, defs n = some d → d.head = n ∧ residual la K d = 0)
+    (fuel : Nat) (e e' : Eqn Rat) :
+    letI := ratOps f
+    rewriteToMasters drop inUse defs fuel e = some e' →
+      (residual la K e' = 0 ↔ residual la K e = 0) := by
+  intro h
+  rw [(rewrite_residual_eq f drop inUse defs la K hK hdrop hdefs fuel e e' h).2]
+
+/-- the special case `K := kCalc · T P` (any temperature, any pressure): the linearity hypothesis is `kCalc_addScaled` -/
+theorem rewrite_mass_action_kCalc (f : TransFns Rat) (drop : Rat → Bool) (inUse : String → Bool)
+    (defs : String → Option (Eqn Rat)) (la : String → Rat) (T P : Rat)
+    (hdrop : ∀ c, drop c = true → c = 0)
+    (hdefs : letI := ratOps f; ∀ n d, defs n = some d → d.head = n ∧ residual la (fun k => kCalc k T P) d = 0)
+    (fuel : Nat) (e e' : Eqn Rat) :
+    letI := ratOps f
+    rewriteToMasters drop inUse defs fuel e = some e' →
+      e'.head = e.head ∧ residual la (fun k => kCalc k T P) e' = residual la (fun k => kCalc k T P) e :=
+  rewrite_residual_eq f drop inUse defs la _ (fun p q c => kCalc_addScaled f p q c T P) hdrop hdefs fuel e e'
+
+theorem firstOut_none (inUse : String → Bool) (b : List (String × Rat)) :
+    firstOut inUse b = none → ∀ p ∈ b, inUse p.1 = true :=
+  Speciation.firstOut_none inUse b
+
+/-- a successful rewrite mentions only masters in use -/
+theorem rewrite_only_masters (f : TransFns Rat) (drop : Rat → Bool) (inUse : String → Bool)
+    (defs : String → Option (Eqn Rat)) (fuel : Nat) (e e' : Eqn Rat) :
+    letI := ratOps f
+    rewriteToMasters drop inUse defs fuel e = some e' → ∀ p ∈ e'.body, inUse p.1 = true :=
+  fun h => Speciation.firstOut_none inUse _ (Speciation.rewrite_firstOut f drop inUse defs fuel e e' h)
+
+/-! ### 5. element and charge balance -/
+
+/-- `w` = number of atoms of one element in (or charge of) each species. If every defining equation is balanced, the
+rewritten right-hand side carries the same amount as the original one; hence balanced iff balanced. -/
+theorem rewrite_preserves_balance (f : TransFns Rat) (drop : Rat → Bool) (inUse : String → Bool)
+    (defs : String → Option (Eqn Rat)) (w : String → Rat)
+    (hdrop : ∀ c, drop c = true → c = 0)
+    (hdefs : letI := ratOps f; ∀ n d, defs n = some d → d.head = n ∧ evalBody w d.body = w d.head)
+    (fuel : Nat) (e e' : Eqn Rat) :
+    letI := ratOps f
+    rewriteToMasters drop inUse defs fuel e = some e' →
+      evalBody w e'.body = evalBody w e.body ∧ (evalBody w e'.body = w e'.head ↔ evalBody w e.body = w e.head) := by
+  intro h
+  have hh := rewrite_residual_eq f drop inUse defs w (fun _ => 0) (fun _ _ _ => by grind) hdrop
+    (fun n d hd => by
+      obtain ⟨h1, h2⟩ := hdefs n d hd
+      refine ⟨h1, ?_⟩
+      simp only [residual]; grind) fuel e e' h
+  obtain ⟨h1, h2⟩ := hh
+  simp only [residual] at h2
+  rw [h1] at h2 ⊢
+  constructor <;> grind
+
 end PhreeqcVerif.C01
